@@ -97,11 +97,11 @@ func execCrash(input string) Result {
 	sp2.KillAt, sp2.StopAt, sp2.PauseAt, sp2.KillAfterMs = nil, nil, nil, 0
 	sp2.Expect = 0
 	sp2.IdleMs = 5800 // the queue's finisher flushes its delete batch after at most 5 s
-	sp2.TimeoutMs = 40000
+	sp2.TimeoutMs = 90000
 	if len(evs1) > 0 && evs1[0].kind == "run" && len(evs1[0].fields) >= 2 {
 		sp2.Port, _ = strconv.Atoi(evs1[0].fields[1]) // same origin as in run 1: the rows carry its address
 	}
-	res2, evs2, status2 := runChild(&sp2, 60*time.Second)
+	res2, evs2, status2 := runChild(&sp2, 120*time.Second)
 	rowsAfter2, _ := readLQ(sp.Dir)
 
 	sid := map[string]int{}
